@@ -104,6 +104,21 @@ def run_unit(ck, unit):
             ck.inconclusive.append('%s: the loaded tree holds an engine that is not what its description says (%s); the model of the original is not valid' % (
                 name, base_probes[0][1]))
         return
+    # beyond the ASCII bound of the symbolic documents (concrete, labelled): regexes whose letters have non-ASCII case-fold
+    # partners are compared natively, original against every optimised variant, on documents that hold those partners
+    for docj, what in fold_probe_docs(base):
+        n0 = br.call(cmd='eval', yaml=yaml, opts=None, doc=docj, mode='flat')
+        for txt, (opts, rj) in variants.items():
+            ck.obligations += 1
+            n1 = br.call(cmd='eval', yaml=yaml, opts=opts, doc=docj, mode='flat')
+            if n0.get('verdict') != n1.get('verdict'):
+                label = '%s opts=%s' % (name, ''.join('csrm'[i] if opts[i] else '-' for i in range(4)))
+                path = ck.write_replay(safe(label) + '_fold', {'rule': yaml, 'opts': opts, 'doc': docj, 'what': what, 'native_original': n0,
+                                                               'native_optimised': n1, 'optimised_tree': rj['display']})
+                ck.violations.append((path, '%s: %s; original=%s optimised=%s on %s' % (label, what, n0.get('verdict'), n1.get('verdict'), json.dumps(docj))))
+                break
+            ck.discharged += 1
+            ck.extra['fold_probes'] = ck.extra.get('fold_probes', 0) + 1
     # arrays of two elements where elements of an array of objects matter (nested blocks), also in the quick tier
     wide = name.split('/')[0] in ('nested', 'shake', 'matrix')
     bounds = Bounds(str_cap=3 if quick else 4, arr_cap=2 if (wide or not quick) else 1, depth=3 if 'n.m.f' in name else 2)
